@@ -13,7 +13,10 @@
 (*           that does not follow the scheme;  d = rank of the date/date-time suffix (0 none; ranks are    *)
 (*           chronological), x = index suffix (0 none), ids = statements in file order, sz = bytes,        *)
 (*           bad = 1 if the content is anything but whole statements                                       *)
-(* event= [op "C"|"R"|"W", mode 0 append / 1 write, t, dk, p1, cand, id, sz, files, ubad, err]             *)
+(* event= [op "C"|"R"|"W", mode 0 append / 1 write, rm, t, dk, p1, cand, id, sz, files, ubad, err]         *)
+(*        rm = 1 (restart only): the active file disappeared while no sink was open (crash between rename  *)
+(*        and re-open, external tool); its statements count as deliberately deleted, every other retained  *)
+(*        file must keep its statements, order, naming and count bound,                                    *)
 (*        t  instant of the operation (start_time / record timestamp), dk = rank of t's suffix under the   *)
 (*        scheme, p1 = first scheduled point after t (C/R; calendar supplied by the caller),               *)
 (*        cand = admissible next points if this write passes a point (calendar supplied by the caller:     *)
@@ -90,7 +93,7 @@ Named(named, F, fl) ==
 Construct(c, e) ==
   LET w == e.mode = 1
       fl == IF w THEN c.nid + 1 ELSE c.fl
-      live == IF w THEN {} ELSE c.live
+      live == IF w THEN {} ELSE IF e.rm = 1 THEN c.live \ Range(CurIds(c.prev, c.fl)) ELSE c.live
       rs == IF w THEN FALSE ELSE (c.restarted \/ e.op = "R")
       bigok == IF w THEN {} ELSE c.bigok
       named == IF w THEN {} ELSE c.named
